@@ -41,7 +41,7 @@ class C09(C.ProgramDiff):
         if k == 0:
             return ('f', src.pick(['do', 'do1']), (goal,))
         if k == 1:
-            return ('f', 'all', (gen.gen_term(src, gen.QVARS, self.cfg), goal, src.pick(gen.QVARS)))
+            return ('f', 'all', (gen.gen_template(src, gen.QVARS, goal, self.cfg), goal, src.pick(gen.QVARS)))
         if goal[0] == 'f' and len(goal[2]) >= 1:
             m = 1 + src.n(min(2, len(goal[2])))
             keep, extra = goal[2][:-m], goal[2][-m:]
